@@ -25,3 +25,22 @@ def fs_mutation_sites(fb):
             if t.callee and re.search(FS_MUT, t.callee) or t.declared and re.search(FS_MUT, t.declared):
                 out.append(t)
     return out
+
+
+def write_index_rule(cx, fb, rule):
+    """The artifact index carried by a planned WriteFile names an entry of the NEW artifact list (FileSystemState::diff):
+    it must not derive from the old state (parameter 1). Shared by C18 (wrong content written) and C08 (an index out
+    of range makes apply_file_system_operations panic in the next watch-mode recompile)."""
+    from rulelib import aggregates, local_flows_from
+    from factbase import op_place
+    df = fb.one(r"artifact_content::file_system_state::FileSystemState::diff$")
+    dwrites = [a for a in aggregates(df, r"FileSystemOperation$") if a.j["variant"] == "WriteFile"]
+    cx.floor(rule + " WriteFile operations planned by diff", len(dwrites), 2)
+    for k, w in enumerate(dwrites):
+        ip = op_place(w.ops[1]) if len(w.ops) > 1 else None
+        from_old = ip is not None and local_flows_from(df, ip.local, lambda d: (hasattr(d, "rv") and any(p_.local == 1 for p_ in d.reads())) or (
+            not hasattr(d, "rv") and any(p_ is not None and p_.local == 1 for p_ in d.arg_places())), 10) is not None
+        cx.ob(rule, "%s|write#%d-index-from-new-state" % (df.id, k), ip is not None and not from_old,
+              "the artifact index of a planned WriteFile derives from the OLD file-system state: the index is applied to "
+              "the new artifact list, so another artifact's content is written, or the index is out of range and the "
+              "writer panics in the next incremental recompile", df.loc(w.line))
